@@ -1,0 +1,109 @@
+//go:build verif
+
+package litestream
+
+import (
+	"runtime"
+	"sync"
+)
+
+// Lock-event recorder of the verification harness (build tag "verif", property
+// C12). verifTrace is called next to every acquire / release of execSem, chkMu,
+// Replica.syncSem, Store.mu and db.mu: right AFTER an acquisition succeeded and
+// right BEFORE a release, so the recorded order is consistent with the order in
+// which the locks were really held.
+
+// VerifTraceEvent is one recorded event.
+type VerifTraceEvent struct {
+	G     uint64 // goroutine id (for a snapshot's RUnlock: the goroutine that took the RLock)
+	Obj   int    // small identity of the *DB or *Store the event belongs to (per reset)
+	Store bool   // Obj is a *Store
+	Ev    string
+}
+
+const verifTraceMax = 1 << 21
+
+var verifTraceLog struct {
+	mu      sync.Mutex
+	on      bool
+	ev      []VerifTraceEvent
+	objs    map[any]int
+	owner   map[*snapshotReadPosition]uint64
+	closed  map[*snapshotReadPosition]bool
+	dropped int
+}
+
+func verifGoID() uint64 {
+	var buf [64]byte
+	n := runtime.Stack(buf[:], false)
+	var id uint64
+	for i := len("goroutine "); i < n && buf[i] >= '0' && buf[i] <= '9'; i++ {
+		id = id*10 + uint64(buf[i]-'0')
+	}
+	return id
+}
+
+func verifTrace(obj any, ev string) {
+	l := &verifTraceLog
+	l.mu.Lock()
+	defer l.mu.Unlock()
+	if !l.on {
+		return
+	}
+	g := verifGoID()
+	if p, ok := obj.(*snapshotReadPosition); ok {
+		if p == nil {
+			return
+		}
+		switch ev {
+		case "snap.owner": // the goroutine that holds chkMu.RLock on behalf of this snapshot
+			l.owner[p] = g
+			return
+		case "chk.runlock": // close() may be called several times; sync.Once lets the first one unlock
+			if l.closed[p] {
+				return
+			}
+			l.closed[p] = true
+			if o, ok := l.owner[p]; ok {
+				g = o
+			}
+		}
+		obj = p.db
+	}
+	if r, ok := obj.(*DB); ok && r == nil {
+		return
+	}
+	id, ok := l.objs[obj]
+	if !ok {
+		id = len(l.objs) + 1
+		l.objs[obj] = id
+	}
+	if len(l.ev) >= verifTraceMax {
+		l.dropped++
+		return
+	}
+	_, isStore := obj.(*Store)
+	l.ev = append(l.ev, VerifTraceEvent{G: g, Obj: id, Store: isStore, Ev: ev})
+}
+
+// VerifTraceReset clears the log and switches recording on or off.
+func VerifTraceReset(on bool) {
+	l := &verifTraceLog
+	l.mu.Lock()
+	defer l.mu.Unlock()
+	l.on = on
+	l.ev = nil
+	l.objs = map[any]int{}
+	l.owner = map[*snapshotReadPosition]uint64{}
+	l.closed = map[*snapshotReadPosition]bool{}
+	l.dropped = 0
+}
+
+// VerifTraceEvents returns a copy of the log and the number of events dropped
+// because the log was full.
+func VerifTraceEvents() ([]VerifTraceEvent, int) {
+	l := &verifTraceLog
+	l.mu.Lock()
+	defer l.mu.Unlock()
+	return append([]VerifTraceEvent(nil), l.ev...), l.dropped
+}
